@@ -101,10 +101,76 @@ Verdict historyProp(Ctx& c) {
   return pbt::pass();
 }
 
+// ---- text histories: acyclic term references by construction, then incremental text edits -------------------------
+// Constituent i may reference only constituents j < i in its TERM (so resolution is well defined); text definitions
+// reference anything.  Edits: SetTermFor / SetTermFormFor / SetDefinitionFor / SetAliasFor / Erase / Emplace.
+Verdict textHistoryProp(Ctx& c) {
+  const uint64_t idSeed = static_cast<uint64_t>(c.pick(1, 1000000));
+  const int n = c.ipick(2, 6);
+  static const char* forms[] = {"nomn,sing", "datv,plur", "gent,sing", "ablt,plur"};
+  auto refTo = [&](int j) { return "@{X" + std::to_string(j + 1) + "|" + forms[c.ipick(0, 3)] + "}"; };
+  auto termText = [&](int i) -> std::string {  // references only to lower indices
+    const int w = c.ipick(0, 4);
+    if (i == 0 || w == 0) return std::string("word") + std::to_string(c.ipick(1, 9));
+    if (w == 1) return "big " + refTo(c.ipick(0, i - 1));
+    if (w == 2) return refTo(c.ipick(0, i - 1)) + " of " + refTo(c.ipick(0, i - 1));
+    if (w == 3) return refTo(c.ipick(0, i - 1)) + " @{-1|small}";
+    return "";
+  };
+  auto defText = [&]() -> std::string { const int w = c.ipick(0, 3); if (w == 0) return ""; if (w == 1) return "owner of " + refTo(c.ipick(0, n - 1)); if (w == 2) return refTo(c.ipick(0, n - 1)) + " and " + refTo(c.ipick(0, n)); return "plain"; };
+  struct TOp { int kind, target, aux; std::string text; };
+  std::vector<std::string> terms, defs;
+  for (int i = 0; i < n; ++i) { terms.push_back(termText(i)); defs.push_back(defText()); }
+  std::vector<TOp> ops;
+  const int nOps = c.ipick(1, 10);
+  for (int i = 0; i < nOps; ++i) {
+    TOp op; op.kind = c.ipick(0, 9); op.target = c.ipick(0, n - 1); op.aux = c.ipick(0, 3);
+    if (op.kind <= 3) op.text = termText(op.target);                 // SetTermFor (keeps the acyclic discipline)
+    else if (op.kind <= 5) op.text = std::string("form") + std::to_string(c.ipick(1, 5));  // SetTermFormFor
+    else if (op.kind <= 7) op.text = defText();                      // SetDefinitionFor
+    ops.push_back(op);
+  }
+  c.show << "terms:"; for (int i = 0; i < n; ++i) c.show << " X" << i + 1 << "='" << terms[static_cast<size_t>(i)] << "'/'" << defs[static_cast<size_t>(i)] << "'";
+  c.show << " ops:";
+  static const char* names[] = {"SetTerm", "SetTerm", "SetTerm", "SetTerm", "SetForm", "SetForm", "SetText", "SetText", "Rename", "Erase"};
+  for (auto& op : ops) c.show << " " << names[op.kind] << "(X" << op.target + 1 << ",'" << op.text << "')";
+  c.exec();
+  Executor ex(idSeed);
+  std::vector<EntityUID> uids;
+  for (int i = 0; i < n; ++i) uids.push_back(ex.form.Emplace(CstType::base));
+  for (int i = 0; i < n; ++i) { ex.form.SetTermFor(uids[static_cast<size_t>(i)], terms[static_cast<size_t>(i)]); ex.form.SetDefinitionFor(uids[static_cast<size_t>(i)], defs[static_cast<size_t>(i)]); }
+  bool chainEdit = false;
+  for (const auto& op : ops) {
+    const auto uid = uids[static_cast<size_t>(op.target)];
+    if (!ex.form.Contains(uid)) continue;
+    // a term edit while some other term depends on it transitively and some definition text depends on that one
+    if (op.kind <= 5) { const auto dependants = ex.form.Texts().TermGraph().ExpandOutputs({uid}); if (dependants.size() > 1) { const auto defDeps = ex.form.Texts().DefGraph().ExpandOutputs(dependants); if (defDeps.size() > dependants.size()) chainEdit = true; } }
+    std::string name = names[op.kind];
+    if (op.kind <= 3) ex.form.SetTermFor(uid, op.text);
+    else if (op.kind <= 5) ex.form.SetTermFormFor(uid, op.text, ccl::lang::Morphology(std::string_view(forms[op.aux])));
+    else if (op.kind <= 7) ex.form.SetDefinitionFor(uid, op.text);
+    else if (op.kind == 8) ex.form.SetAliasFor(uid, "X" + std::to_string(20 + op.aux), true);
+    else ex.form.Erase(uid);
+    const RSForm& inc = ex.form;
+    RSForm fresh;
+    for (auto u : inc.List()) fresh.Load(inc.Core().AsRecord(u));
+    fresh.UpdateState();
+    const bool acyclicTerms = !inc.Texts().TermGraph().HasLoop();
+    if (!acyclicTerms) c.count("cyclic-terms");
+    const Verdict v = compareWith(inc, fresh, "Load+UpdateState", name + "(X" + std::to_string(op.target + 1) + ")", acyclicTerms);
+    if (v.kind != Verdict::PASS) return v;
+    c.label(std::string("text-op:") + names[op.kind]);
+  }
+  c.nontrivial = chainEdit;
+  if (chainEdit) c.label("term-edit-with-term-and-definition-dependants");
+  return pbt::pass();
+}
+
 }  // namespace
 
 int main(int argc, char** argv) {
   std::vector<pbt::Prop> props;
-  props.push_back({"history", historyProp, 1200, 20000, false, false, "random editing histories; incremental state vs two from-scratch rebuilds after every operation"});
+  props.push_back({"text_history", textHistoryProp, 1500, 25000, false, false, "acyclic term-reference chains, incremental text edits vs from-scratch resolution"});
+  props.push_back({"history", historyProp, 1000, 20000, false, false, "random editing histories; incremental state vs two from-scratch rebuilds after every operation"});
   return pbt::main(argc, argv, "C07", props);
 }
